@@ -16,7 +16,7 @@ def load_layouts():
     out = []
     for m in re.finditer(r'\[name \|-> "([^"]*)",\s*sep \|-> "([^"]*)",\s*sp \|-> "([^"]*)",\s*bg \|-> "([^"]*)",\s*'
                          r'comment \|-> (TRUE|FALSE),\s*final \|-> "([^"]*)"\]', body):
-        un = lambda s: s.replace("\\n", "\n").replace("\\t", "\t").replace("\\\\", "\\")
+        un = lambda s: s.replace("\\n", "\n").replace("\\r", "\r").replace("\\t", "\t").replace("\\\\", "\\")
         out.append({"name": m.group(1), "sep": un(m.group(2)), "sp": un(m.group(3)), "bg": un(m.group(4)),
                     "comment": m.group(5) == "TRUE", "final": un(m.group(6))})
     if len(out) < 3:
